@@ -19,7 +19,7 @@ from concurrent.futures import ThreadPoolExecutor
 from pathlib import Path
 
 from . import c04_gen as g
-from . import core, lib
+from . import c04_ladder, core, lib
 from .c04_truth import STUBS, FakeDocker, Scratch
 
 TRUSTED = [
@@ -31,6 +31,7 @@ TRUSTED = [
     "oracle hypothesis of the no-launder theorems, stated in them: analysing the text bash_join ws yields the ladder's verdict on the re-read words (map reread ws); ';'-joined texts are judged as the most restrictive clause",
     "extraction: ExtrOcamlBasic only; OCaml 4.13.1; ocaml/driver.ml; cross-checked in Coq by vm_compute on a sample",
     "modelled, not verified: the vendored parser; the decision ladder itself is Model/Ladder.v (another package) and an oracle here",
+    "round-2 launcher forms (harness/laddergen.py launchers/option_forms): 'the launcher's own option parsing ends at the inner command's name' (POSIX option order of env, xargs, timeout, nice, nohup, strace; docker exec stops at the container; kubectl after --; find -exec up to ;) - the same grammar the validated WrapSpec.v specs state; a sample of these forms is in the real-bash stream above",
     "ground-truth harness: stub executables + real bash 5.2.15, coreutils 9.1, findutils 4.9.0, dash, strace, docker client 29.x with a recording fake daemon (harness/c04_truth.py)",
 ]
 
@@ -82,6 +83,8 @@ def run(tier, seed, replay=None):
     rng = random.Random(seed)
     cfg = parse_config(g.CONFIG_TEXT)
     out = core.Outcome("C04")
+    # the ladder streams (harness/c04_ladder.py) run in forked worker processes next to the ground-truth runs
+    workers = c04_ladder.start(tier) if replay is None else None
     scratches = [Scratch() for _ in range(NWORK)]
     fake = FakeDocker()
     model = lib.Model()
@@ -157,7 +160,7 @@ def run(tier, seed, replay=None):
         # ------------------------------------------------------------------ cases
         cases = []
         if replay is None:
-            cases += g.odd_cases(tier) + g.getopt_cases(tier) + g.env_split_cases(tier) + g.find_cases(tier) + g.shell_cases(tier)
+            cases += g.odd_cases(tier) + g.inner_flag_cases(tier) + g.getopt_cases(tier) + g.env_split_cases(tier) + g.find_cases(tier) + g.shell_cases(tier)
             cases += g.docker_cases(tier, "docker") + g.docker_cases("quick", "podman")[:400] + g.kubectl_cases(tier) + g.fd_cases(tier)
             cases += g.other_launcher_cases(tier)
         elif replay.get("case"):
@@ -205,6 +208,10 @@ def run(tier, seed, replay=None):
                 log, rc, err = logs[idx][1]
                 if log is None:
                     out.count("skipped", "tool-timeout")
+                    continue
+                if case.wrapper == "timeout" and not log and rc in (124, 137):
+                    # on an overloaded machine the stub is not even started within `timeout 0.5`: timeout(1) reports 124
+                    out.count("skipped", "timeout-expired-before-exec")
                     continue
                 execd = log
                 if case.validate:
@@ -301,13 +308,13 @@ def run(tier, seed, replay=None):
             vocab = g.soup_vocab(tables)
             heads = [["sh"], ["bash"], ["zsh"], ["env"], ["xargs"], ["find", "."], ["fd"], ["docker", "exec"], ["docker"], ["podman", "exec"],
                      ["kubectl", "exec"], ["kubectl"], ["k", "exec"], ["arch"], ["caffeinate"], ["script"], ["uv", "run"], ["uv"], ["docker-compose"], ["tar", "-xf", "a.tar"], ["tar"]]
-            for i, toks in enumerate(g.soups(rng, 4000 if tier == "quick" else 60000, heads, vocab)):
+            for i, toks in enumerate(g.soups(rng, 2500 if tier == "quick" else 60000, heads, vocab)):
                 _correspond(out, mcall, get_handler, HandlerContext, toks, cwd, ladder, rec=(i % 400 == 0))
                 out.case(["soup", toks], nontrivial=len(toks) > 2)
                 out.count("soup", toks[0])
 
         # ------------------------------------------------------------------ exact-plain and env-prefix oracles
-        if replay is None or replay.get("kind") in ("exact-plain", "env-prefix"):
+        if replay is None or (replay.get("kind") in ("exact-plain", "env-prefix") and "ladder_pair" not in replay):
             forms = [("time c", "time {}"), ("timeout N c", "timeout 5 {}"), ("timeout N.N c", "timeout 0.5 {}"), ("nice c", "nice {}"),
                      ("nice -n N c", "nice -n 5 {}"), ("nohup c", "nohup {}"), ("command c", "command {}"), ("command -- c", "command -- {}"),
                      ("nohup nice c", "nohup nice {}"), ("timeout N nohup command c", "timeout 5 nohup command {}")]
@@ -328,7 +335,16 @@ def run(tier, seed, replay=None):
                         out.count(kind, f"{label}:{a}")
                         if a != b:
                             violation(kind, label, whole, what=f"analyze({whole!r})={a} but analyze({c!r})={b}", form=f, inner=c)
+
+        # ------------------------------------------------------------------ the decision ladder: exhaustive token lists, metamorphic pairs
+        if replay is not None and replay.get("ladder_pair"):
+            c04_ladder.Streams(out, tier, an, cfg, cwd, model, xcheck, violation).replay(replay["ladder_pair"])
+        if workers is not None:
+            c04_ladder.merge(out, xcheck, workers)
+            workers = None
     finally:
+        if workers is not None:
+            workers[0].shutdown(cancel_futures=True)
         model.close()
         for s in scratches:
             s.close()
@@ -345,8 +361,19 @@ def run(tier, seed, replay=None):
         "wrappers} x trailing -h/--help/--version/help; every such command is run under real bash with stub executables (docker: real client, "
         "fake daemon) and the verdict compared with the ladder's verdict on each argv that really ran. quoting: all 33 ASCII metacharacters, "
         "their pairs, quotes, random ASCII/Unicode strings, and the code points str.isalnum accepts, round-tripped through real bash printf. "
-        "random: token soups for the handler-model correspondence. distinct = distinct command texts / token lists; non-trivial = a wrapper "
-        "with an inner command, or a string that needs quoting")
+        "random: token soups for the handler-model correspondence. "
+        "ROUND 2 (harness/c04_ladder.py, generators harness/laddergen.py, run in forked worker processes): (L) Ladder.ladder == "
+        "_analyze_simple_command on EXHAUSTIVE token lists: [wrapper] + alphabet^k for every ladder wrapper, alphabets drawn from the wrapper "
+        "tables of the tree united with a snapshot (every flag with argument, cluster / attached / =-joined / abbreviated / long-ending-in-a-short-letter "
+        "spellings, --, -, -v, -V, -p, near misses, assignments and non-assignments, operands, commands of every verdict class, help tokens, "
+        "nested wrappers): core^<=3, tiny^4, every full-alphabet token at every position of a short list, every list behind outer contexts "
+        "(assignment, wrapper, env); non-wrapper heads x help-token tails with the 4-word boundary; Ladder.is_help == _is_version_or_help on all "
+        "lists <= 5 over its literals + near misses; Wrappers.v classify == handler.classify() on exhaustive lists over each handler's own alphabet. "
+        "(M) model-free: verdict(<form> CMD ARGS) == verdict(CMD ARGS) for the plain forms (words and shell text, also two forms nested), >= for "
+        "every valid option spelling of every wrapper, 24 two-level nestings and every launcher form (env xargs sh find fd docker podman kubectl uv "
+        "arch caffeinate script), where ARGS puts every token the wrapper itself understands as 1st / 2nd / 3rd argument of the inner command, and "
+        "inner commands followed by help/version-looking tokens. "
+        "distinct = distinct command texts / token lists; non-trivial = a wrapper with an inner command, or a string that needs quoting")
     return out
 
 
